@@ -1435,7 +1435,7 @@ class Pregex():
                 return pattern
             temp = _re.sub(pattern=left_par + r"(?:[^\(\)]|\\(?:\(|\)))+" + right_par,
                 repl=repl, string=pattern)
-            return temp if temp == repl else remove_groups(temp, repl)
+            return temp if temp == repl or temp == pattern else remove_groups(temp, repl)
 
         def __is_group(pattern: str) -> bool:
             '''
